@@ -72,12 +72,6 @@ def specChoose (fs : Fs) (v : View) (ae : Option (List Enc)) (target : Text) : O
   | none => .notFound
   | some c => .file c.path c.enc (decide (cs.length > 1))
 
-/-- the served tree has no directory named like an encoded variant (`….gz/`) and no directory named like the
-index file inside a directory (`dir/index.html/`) -/
-def NoDirCandidates (fs : Fs) (v : View) : Prop :=
-  (∀ t : Text, ∀ e ∈ v.encs, ∀ x ∈ e.2, fs.isDir (t ++ x) = false) ∧
-  (∀ d : Text, fs.isDir d = true → fs.isDir (d ++ '/' :: v.index) = false)
-
 /-- what the operating system tells about the root: it is a directory, with or without a trailing slash -/
 def RootIsDir (fs : Fs) (v : View) : Prop :=
   fs.isDir (rootOf v) = true ∧ fs.isDir (rootOf v ++ ['/']) = fs.isDir (rootOf v)
